@@ -709,6 +709,6 @@ func init() {
 		RunRace: c08Concurrent,
 		Required: []string{"universes", "modules_vs_model", "presentations_compared", "cache_hits", "remote_module_digests",
 			"perturb_module_file", "perturb_non_module", "perturb_dependency_only", "manifests_checked", "manifests_roundtripped",
-			"remote_pinned_digests", "remote_tamper_detected", "workspace_presentations", "concurrent_digests"},
+			"remote_pinned_digests", "remote_b4_pinned_dependencies", "remote_tamper_detected", "workspace_presentations", "concurrent_digests"},
 	})
 }
